@@ -171,6 +171,14 @@ def op_term(op):
             return "WH %s %s" % (PK[t[1]], cz(int(t[2])))
         if a == "st":
             return "WSt %s %s" % (SIDE[t[1]], cz(int(t[2])))
+        if a == "keepnet":
+            return "WKeepnet"
+        if a == "settle":
+            return "WSettle"
+        if a == "mpd":
+            return "WMpd %s %s" % (cz(int(t[1])), cz(int(t[2])))
+        if a == "msd":
+            return "WMsd %s %s" % (cz(int(t[1])), cz(int(t[2])))
         if a in ("burnPUB", "burnSUB"):
             return "WBurnG %s %s %s" % (SIDE[a[4:]], cz(int(t[1])), cz(int(t[2])))
         if a == "burnT":
@@ -219,6 +227,15 @@ def out_term(o):
         return None if h is None else "(RHandle %s)" % h
     if t[0] in ("FQ", "CFT", "del", "s", "e", "st"):
         return code_term(t[1]) if len(t) == 2 else None
+    if t[0] in ("k", "n") and len(t) == 1:
+        return "RUnit"
+    if t[0] == "m":
+        if len(t) == 2:
+            return code_term(t[1])
+        try:
+            return "(RAnn [%s])" % "; ".join(cz(int(x)) for x in t[1:])
+        except ValueError:
+            return None
     if t[0] == "b":
         if len(t) != 3:
             return None
